@@ -297,6 +297,30 @@ fn big_inputs() -> Vec<Vec<u8>> {
     v
 }
 
+/// totality of the likely-subtags and direction queries on one triple
+#[cfg(feature = "likelysubtags")]
+pub fn check_c01_triple(u: &super::universe::Universe, t: rm::likely::Triple, l: &mut Local, coll: &Collector) {
+    use unic_langid_impl::likelysubtags;
+    let x = u.lib(t);
+    let r = guard_total(|| {
+        let a = likelysubtags::maximize(x.0, x.1, x.2);
+        let b = likelysubtags::minimize(x.0, x.1, x.2);
+        let mut li = LanguageIdentifier::from_parts(x.0, x.1, x.2, &[]);
+        let d = li.character_direction();
+        li.maximize();
+        li.minimize();
+        (a.is_some(), b.is_some(), d)
+    });
+    match r {
+        Ok((a, b, _)) => {
+            l.counters[a as usize] += 1;
+            l.counters[2 + b as usize] += 1;
+            l.nontrivial += (a || b) as u64;
+        }
+        Err(p) => pviol(coll, l.order, "c01.panic", &format!("maximize/minimize/character_direction panics: {}", p.split(" at ").next().unwrap_or("")), &format!("triple:{}", u.lk.show(t)), "a value".into(), p),
+    }
+}
+
 pub fn run_c01(ctx: &Ctx) -> Report {
     let mut rep = Report::new();
     // (a) every text-accepting entry point on the E1/E2 spaces
@@ -331,26 +355,9 @@ pub fn run_c01(ctx: &Ctx) -> Report {
     //     direction queries
     #[cfg(feature = "likelysubtags")]
     {
-        use unic_langid_impl::likelysubtags;
         let u = super::universe::Universe::new(&ctx.repo);
         let st = par_range(ctx, "E4.triples", u.size(), 1 << 14, &|idx, l| {
-            let t = u.decode(idx);
-            let x = u.lib(t);
-            let r = guard_total(|| {
-                let a = likelysubtags::maximize(x.0, x.1, x.2);
-                let b = likelysubtags::minimize(x.0, x.1, x.2);
-                let li = LanguageIdentifier::from_parts(x.0, x.1, x.2, &[]);
-                let d = li.character_direction();
-                (a.is_some(), b.is_some(), d)
-            });
-            match r {
-                Ok((a, b, _)) => {
-                    l.counters[a as usize] += 1;
-                    l.counters[2 + b as usize] += 1;
-                    l.nontrivial += (a || b) as u64;
-                }
-                Err(p) => pviol(&coll, l.order, "c01.panic", "maximize/minimize/character_direction panics", &format!("triple:{}", u.lk.show(t)), "a value".into(), p),
-            }
+            check_c01_triple(&u, u.decode(idx), l, &coll);
         });
         rep.add_space("E4.triples", u.describe(), &st);
         rep.extra.insert("triple_results".into(), json!({"maximize_none": st.local.counters[0], "maximize_some": st.local.counters[1], "minimize_none": st.local.counters[2], "minimize_some": st.local.counters[3]}));
